@@ -543,7 +543,7 @@ func replayTrace(line string) string {
 			return ru.fatal
 		}
 	}
-	if got := ru.traceLine(); got != line {
+	if got := ru.traceLine(); normLine(got) != normLine(line) {
 		return "deviate: " + got
 	}
 	return "accept"
@@ -577,7 +577,7 @@ func replaySched(line string) string {
 			return ru.fatal
 		}
 	}
-	if got := ru.schedLine(); got != line {
+	if got := ru.schedLine(); normLine(got) != normLine(line) {
 		return "deviate: " + got
 	}
 	return ru.answer()
@@ -712,9 +712,17 @@ func runSched(r *vh.Rng, conf sconf) (string, string, string, string) {
 				wt = 9
 			}
 			tok := fmt.Sprintf("s%d", next)
+			hbPending := false // OPTIONS frames are indistinguishable: at most one heartbeat request outstanding
+			for _, q := range ru.order {
+				if q.kind == 'h' && !q.entered && q.state != "D" {
+					hbPending = true
+				}
+			}
 			switch r.Intn(12) {
 			case 0:
-				tok = fmt.Sprintf("h%d", next)
+				if !hbPending {
+					tok = fmt.Sprintf("h%d", next)
+				}
 			case 1:
 				tok = fmt.Sprintf("sc%d", next)
 			}
@@ -804,4 +812,111 @@ func runSched(r *vh.Rng, conf sconf) (string, string, string, string) {
 		return "", "", ru.traceLine(), cls + "/own-heartbeat"
 	}
 	return ru.schedLine(), ru.answer(), ru.traceLine(), cls
+}
+
+// ---- systematic templates: three requests outstanding (direct: one inside the transport, two waiting for the
+// semaphore; coalescing: one flush of three frames), frame `cutFrame` (1..3) cut at byte `cutOff` with error
+// `kind`, everything else written whole, then one more request. off > frame length: returns ok=false.
+func (ru *srun) drain() {
+	for i := 0; i < 100 && ru.fatal == ""; i++ {
+		held := ru.g.heldSnapshot()
+		if len(held) > 0 {
+			sort.Slice(held, func(i, j int) bool { return held[i].idx < held[j].idx })
+			w := held[0]
+			id := ru.wreq[w]
+			switch {
+			case ru.g.isClosed():
+				ru.exec(fmt.Sprintf("e%d:pipe", id))
+			case w.off < len(w.p):
+				ru.exec(fmt.Sprintf("p%d:%d", id, len(w.p)-w.off))
+			default:
+				ru.exec(fmt.Sprintf("e%d:ok", id))
+			}
+			continue
+		}
+		queued := false
+		for _, q := range ru.order {
+			if q.state == "R" && !q.entered {
+				queued = true
+			}
+		}
+		if queued && ru.tick != nil && ru.tick() {
+			ru.events = append(ru.events, "t")
+			ru.settle()
+			continue
+		}
+		return
+	}
+}
+
+func runTemplate(conf sconf, cutFrame, cutOff int, kind string) (sop, ans, top, cls string, ok bool) {
+	conf.sizes = []int{10, 25, 3, 7}
+	ru, fatal := newRun(conf)
+	if ru == nil {
+		return fatal, "", "", "fatal", true
+	}
+	defer ru.finish()
+	ru.exec("s1")
+	ru.exec("s2")
+	ru.exec("s3")
+	if conf.coal {
+		ru.exec("t")
+	}
+	ok = true
+	for f := 1; f <= 3 && ru.fatal == ""; f++ {
+		w := ru.heldOf(f)
+		if w == nil {
+			ru.fatal = fmt.Sprintf("fatal template: frame %d is not inside the transport after: %s", f, strings.Join(ru.events, " "))
+			break
+		}
+		if f == cutFrame {
+			if cutOff > len(w.p) || (cutOff == len(w.p) && kind == "ok") {
+				ok = false
+				break
+			}
+			if cutOff > 0 {
+				ru.exec(fmt.Sprintf("p%d:%d", f, cutOff))
+			}
+			ru.exec(fmt.Sprintf("e%d:%s", f, kind))
+			break
+		}
+		ru.exec(fmt.Sprintf("p%d:%d", f, len(w.p)))
+		ru.exec(fmt.Sprintf("e%d:ok", f))
+	}
+	if !ok {
+		return "", "", "", "", false
+	}
+	ru.drain()
+	ru.exec("s4")
+	ru.drain()
+	if ru.fatal != "" {
+		return ru.fatal, "", "", "fatal", true
+	}
+	cls = "tmpl/direct"
+	if conf.coal {
+		cls = "tmpl/coalesce"
+	}
+	cls += fmt.Sprintf("/cut-frame%d:%s", cutFrame, kind)
+	if ru.anonSeen {
+		return "", "", ru.traceLine(), cls + "/own-heartbeat", true
+	}
+	return ru.schedLine(), ru.answer(), ru.traceLine(), cls, true
+}
+
+// normLine: closeWithError tells the outstanding calls in Go map order, so WHEN a request that is merely told
+// "connection closed" returns (an err / late outcome) is not determined by the schedule. Two histories are the
+// same replay when they agree on everything else and on the set of such returns.
+func normLine(line string) string {
+	toks := strings.FieldsFunc(line, func(r rune) bool { return r == ' ' || r == ';' })
+	var keep, moved []string
+	for _, t := range toks {
+		u := strings.TrimPrefix(t, "+")
+		if len(u) > 1 && u[0] == 'r' && (strings.HasSuffix(u, ":err") || strings.HasSuffix(u, ":late")) {
+			moved = append(moved, u)
+			continue
+		}
+		keep = append(keep, t)
+	}
+	sort.Strings(moved)
+	return strings.Join(keep, " ") + " # " + strings.Join(moved, " ")
 }
